@@ -297,7 +297,7 @@ func (r *runner) apply(op Op) (err error) {
 		}
 		// an old message object, for the markings that do not depend on what the object believes about the file: marking
 		// unread always rewrites the file, marking read does when the object was loaded unread (marking read through an
-		// object that was loaded read is a documented no-op)
+		// object that was loaded read returns early in the code: the caller's object decides, not the file)
 		if o := r.old[op.Op+op.M]; op.Old && o != nil && (op.Flag || o.Header.Get("X-Unread") != "") {
 			r.dropHandles = true // the object of the previous marking no longer knows the state of the file
 			return mailbox.SetUnread(o, op.Flag)
